@@ -322,7 +322,7 @@ func (o OrderedCollectionPage) Equals(with Item) bool {
 	}
 	result := true
 
-	OnOrderedCollectionPage(with, func(w *OrderedCollectionPage) error {
+	err := OnOrderedCollectionPage(with, func(w *OrderedCollectionPage) error {
 		OnOrderedCollection(w, func(wo *OrderedCollection) error {
 			if !wo.Equals(o) {
 				result = false
@@ -368,6 +368,9 @@ func (o OrderedCollectionPage) Equals(with Item) bool {
 		}
 		return nil
 	})
+	if err != nil {
+		result = false
+	}
 	return result
 }
 
